@@ -574,7 +574,7 @@ func (j *Judge) Step(req *Request, resp *Response) []Finding {
 		statusProp = "C04"
 	}
 	if o.mustRefuse() {
-		ok := o.refuse[st] || (o.any4xx && st >= 400 && st < 500) || (o.anyFail && st >= 400)
+		ok := o.refuse[st] || o.alt[st] || ((o.any4xx || o.alt4xx) && st >= 400 && st < 500) || (o.anyFail && st >= 400)
 		if !ok {
 			want := setString(o.refuse)
 			if o.any4xx {
@@ -627,11 +627,17 @@ func (j *Judge) Step(req *Request, resp *Response) []Finding {
 			add("C01", "header:Content-Length", "Content-Length %q, stored length %d", cl, len(n.Data))
 		}
 		fs = append(fs, j.learn(p.Path, n, resp.H.Get("Etag"), resp.H.Get("Last-Modified"), class, req.Method)...)
-		ct := resp.H.Get("Content-Type")
-		if n.CTypeKnown && n.CType != ct {
-			add("C01", "header:Content-Type", "Content-Type %q, earlier announced %q for the same version", ct, n.CType)
+		// The content type is derived from the extension of the name as it is
+		// spelled in the request, so only canonically spelled requests are
+		// compared with one another (and with PROPFIND, which reports members
+		// under their canonical paths).
+		if req.Path == p.Path {
+			ct := resp.H.Get("Content-Type")
+			if n.CTypeKnown && n.CType != ct {
+				add("C01", "header:Content-Type", "Content-Type %q, earlier announced %q for the same version", ct, n.CType)
+			}
+			n.CType, n.CTypeKnown = ct, true
 		}
-		n.CType, n.CTypeKnown = ct, true
 	case "PUT":
 		nn := t.N[p.Path]
 		fs = append(fs, j.learn(p.Path, nn, resp.H.Get("Etag"), resp.H.Get("Last-Modified"), class, "PUT")...)
@@ -838,7 +844,7 @@ func (j *Judge) checkPropfind(req *Request, resp *Response, scope []string, form
 			add("C01", "ms-href", "response carries %d hrefs", len(r.Hrefs))
 			continue
 		}
-		ref := ParseRef(r.Hrefs[0])
+		ref := ParseHref(r.Hrefs[0])
 		np := Normalise(ref.Path)
 		if !ref.OK || !np.OK {
 			add("C01", "ms-href", "href %q cannot be mapped into the namespace", r.Hrefs[0])
@@ -892,7 +898,7 @@ func (j *Judge) checkPropfind(req *Request, resp *Response, scope []string, form
 				lastMod = strings.TrimSpace(e.Elem.Text)
 			}
 			fs = append(fs, j.learn(np.Path, n, etag, lastMod, class, "PROPFIND")...)
-			if e := r.Prop("{DAV:}getcontenttype"); e != nil && n.CTypeKnown {
+			if e := r.Prop("{DAV:}getcontenttype"); e != nil && n.CTypeKnown && ref.Path == np.Path {
 				if strings.TrimSpace(e.Elem.Text) != n.CType {
 					add("C01", "ms-props", "%s: getcontenttype %q, GET announced %q", np.Path, e.Elem.Text, n.CType)
 				}
